@@ -12,9 +12,15 @@ from findings.rules import RULES
 def main():
     pid = sys.argv[1].upper()
     which = sys.argv[2] if len(sys.argv) > 2 else "both"
-    tiers = ["quick", "thorough"] if which == "both" else [which]
     rules = [r for r in RULES if r["property"] == pid]
     fails = []
+    if which == "--from":
+        # reuse collect files of earlier runs (e.g. tools/thorough_all.sh) instead of re-running; existing entries are kept
+        for f in sys.argv[3:]:
+            fails += json.load(open(f))
+        tiers = []
+    else:
+        tiers = ["quick", "thorough"] if which == "both" else [which]
     for t in tiers:
         out = "/verif/scratch/triage_%s_%s.json" % (pid, t)
         os.makedirs("/verif/scratch", exist_ok=True)
